@@ -1,7 +1,9 @@
 package checks
 
 import (
+	"bytes"
 	"context"
+	"crypto/x509"
 	"fmt"
 	"net/http"
 	"sort"
@@ -51,8 +53,49 @@ func patternClasses(p byte) (ocspCls, crlCls int) {
 		return 3, 1
 	case 'X':
 		return 3, 2
+	case 'D':
+		return 3, 1 // like L, but the certificate is listed by the delta CRL of a bundle whose base has three other entries
 	}
 	panic("pattern " + string(p))
+}
+
+// crlBehaviourFor is the CRL behaviour served for a pattern letter.
+func crlBehaviourFor(p byte) *crlBehaviour {
+	if p == 'D' {
+		return crlByName("base-three-other-entries+delta-lists-cert")
+	}
+	_, cc := patternClasses(p)
+	return crlByName(crlClassNames[cc])
+}
+
+// revocationListDamage compares a CRL object the library had access to with a fresh parse of its own bytes, including the spare
+// capacity behind the entry slice (an append through a shared slice header writes there without changing what sequential readers see).
+func revocationListDamage(rl *x509.RevocationList) string {
+	if rl == nil {
+		return ""
+	}
+	fresh, err := x509.ParseRevocationList(rl.Raw)
+	if err != nil {
+		return "raw bytes no longer parse: " + err.Error()
+	}
+	if len(rl.RevokedCertificateEntries) != len(fresh.RevokedCertificateEntries) {
+		return fmt.Sprintf("entry count %d, parsed %d", len(rl.RevokedCertificateEntries), len(fresh.RevokedCertificateEntries))
+	}
+	full := rl.RevokedCertificateEntries[:cap(rl.RevokedCertificateEntries)]
+	for i, e := range full {
+		if i < len(fresh.RevokedCertificateEntries) {
+			f := fresh.RevokedCertificateEntries[i]
+			if e.SerialNumber == nil || e.SerialNumber.Cmp(f.SerialNumber) != 0 || !e.RevocationTime.Equal(f.RevocationTime) || e.ReasonCode != f.ReasonCode || !bytes.Equal(e.Raw, f.Raw) {
+				return fmt.Sprintf("entry %d changed", i)
+			}
+		} else if e.SerialNumber != nil || e.Raw != nil || !e.RevocationTime.IsZero() {
+			return fmt.Sprintf("spare capacity slot %d behind the %d entries was written (serial %v)", i, len(fresh.RevokedCertificateEntries), e.SerialNumber)
+		}
+	}
+	if !bytes.Equal(rl.Signature, fresh.Signature) || !bytes.Equal(rl.RawTBSRevocationList, fresh.RawTBSRevocationList) || !rl.NextUpdate.Equal(fresh.NextUpdate) || (rl.Number == nil) != (fresh.Number == nil) || (rl.Number != nil && rl.Number.Cmp(fresh.Number) != 0) || len(rl.Extensions) != len(fresh.Extensions) {
+		return "list fields changed"
+	}
+	return ""
 }
 
 // schedCache is a correct in-memory crl.Cache whose operations are seams.
@@ -172,6 +215,12 @@ func c17Scenarios(tier mc.Tier) []mc.Scenario {
 	add(&c17Scenario{name: "two-callers-GG", pattern: "GG", entry: "validate", callers: 2, fetcher: "http"})
 	add(&c17Scenario{name: "two-callers-cache-F", pattern: "F", entry: "validate", callers: 2, cache: true, fetcher: "http"})
 	add(&c17Scenario{name: "two-callers-cache-L", pattern: "L", entry: "validate", callers: 2, cache: true, fetcher: "http"})
+	// a bundle with a delta CRL shared through the cache / handed out twice by the caller's fetcher
+	add(&c17Scenario{name: "two-callers-cache-D", pattern: "D", entry: "validate", callers: 2, cache: true, fetcher: "http"})
+	add(&c17Scenario{name: "validate-fakefetcher-D", pattern: "D", entry: "validate", callers: 1, inject: 1, fetcher: "fake"})
+	add(&c17Scenario{name: "validate-D", pattern: "D", entry: "validate", callers: 1, inject: 1, fetcher: "http"})
+	add(&c17Scenario{name: "validate-cache-DG", pattern: "DG", entry: "validate", callers: 1, cache: true, inject: 1, fetcher: "http"})
+	add(&c17Scenario{name: "two-callers-fakefetcher-D", pattern: "D", entry: "validate", callers: 2, fetcher: "fake"})
 	// two callers of one validator with different signing times: per-call options must not leak between calls
 	add(&c17Scenario{name: "two-callers-different-signing-times-I", pattern: "I", entry: "validate", callers: 2, fetcher: "http", stCaller: []bool{false, true}})
 	add(&c17Scenario{name: "two-callers-different-signing-times-IF", pattern: "IF", entry: "validate", callers: 2, fetcher: "http", stCaller: []bool{true, false}})
@@ -209,7 +258,8 @@ func (s *c17Scenario) body(c *mc.Ctx) {
 			}
 			return w.serveOCSP(src, ocspByName(ocspClassNames[oc]))
 		}
-		return w.serveCRL(src, crlByName(crlClassNames[cc]))
+		_ = cc
+		return w.serveCRL(src, crlBehaviourFor(s.pattern[src.cert]))
 	}
 	stOf := func(k int) (time.Time, bool) {
 		if k < len(s.stCaller) && s.stCaller[k] {
@@ -233,6 +283,10 @@ func (s *c17Scenario) body(c *mc.Ctx) {
 			case "cancel":
 				cancel()
 				return netsim.Answer{Err: context.Canceled}
+			case "answer-then-cancel":
+				a := answerFor(src)
+				a.After = cancel // the exchange completes; the caller gives up right after it
+				return a
 			}
 			return answerFor(src)
 		}
@@ -246,6 +300,7 @@ func (s *c17Scenario) body(c *mc.Ctx) {
 		hf.Cache = &schedCache{s: sc, m: map[string]*corecrl.Bundle{}}
 	}
 	var fetcher corecrl.Fetcher = hf
+	var handedOut []*corecrl.Bundle // bundles a caller-supplied fetcher gave to the library (shared objects)
 	if s.fetcher == "fake" {
 		fetcher = netsim.FetcherFunc(func(fctx context.Context, u string) (*corecrl.Bundle, error) {
 			src, _ := parseSource(u)
@@ -258,10 +313,12 @@ func (s *c17Scenario) body(c *mc.Ctx) {
 				case "cancel":
 					cancel()
 					return nil, context.Canceled
+				case "answer-then-cancel":
+					cancel()
 				}
-				_, cc := patternClasses(s.pattern[src.cert])
-				a := w.cw[src.cert].artefact(crlByName(crlClassNames[cc]), src.idx)
-				return &corecrl.Bundle{BaseCRL: a.pBase, DeltaCRL: a.pDelta}, nil
+				a := w.cw[src.cert].artefact(crlBehaviourFor(s.pattern[src.cert]), src.idx)
+				handedOut = append(handedOut, &corecrl.Bundle{BaseCRL: a.pBase, DeltaCRL: a.pDelta})
+				return handedOut[len(handedOut)-1], nil
 			}
 			return nil, netsim.ErrTransport
 		})
@@ -322,7 +379,7 @@ func (s *c17Scenario) body(c *mc.Ctx) {
 		op := parked[k]
 		d := ctlDecision{kind: "answer"}
 		if s.inject > 0 && c.Deviations() < s.inject && !op.Epilogue {
-			kinds := 3
+			kinds := 4
 			if s.entry == "checkstatus" || strings.Contains(op.Key, "cache-") {
 				kinds = 2 // no context to cancel / cache seams only panic
 			}
@@ -332,6 +389,9 @@ func (s *c17Scenario) body(c *mc.Ctx) {
 				injectedPanics = append(injectedPanics, d.panicVal)
 			case 2:
 				d = ctlDecision{kind: "cancel"}
+				cancelled = true
+			case 3:
+				d = ctlDecision{kind: "answer-then-cancel"}
 				cancelled = true
 			}
 		}
@@ -367,6 +427,31 @@ func (s *c17Scenario) body(c *mc.Ctx) {
 	}
 	if rep.CallerPanic != nil {
 		panic(mc.HarnessError{Msg: fmt.Sprintf("caller wrapper panicked: %v", rep.CallerPanic)})
+	}
+	// bundles shared between calls (cache content, objects handed out by the caller's fetcher) must be left as they were
+	shared := append([]*corecrl.Bundle(nil), handedOut...)
+	if sc2, ok := hf.Cache.(*schedCache); ok {
+		var urls []string
+		for u := range sc2.m {
+			urls = append(urls, u)
+		}
+		sort.Strings(urls)
+		for _, u := range urls {
+			shared = append(shared, sc2.m[u])
+		}
+	}
+	for _, b := range shared {
+		if b == nil {
+			continue
+		}
+		for _, part := range []struct {
+			n  string
+			rl *x509.RevocationList
+		}{{"base", b.BaseCRL}, {"delta", b.DeltaCRL}} {
+			if why := revocationListDamage(part.rl); why != "" {
+				c.Fail(sigBase+" shared CRL bundle modified by a check ("+part.n+")", "a bundle shared between calls (cache / fetcher) was written to: %s CRL: %s", part.n, why)
+			}
+		}
 	}
 	for k := 0; k < s.callers; k++ {
 		r := results[k]
@@ -429,7 +514,7 @@ func init() {
 	register(&mc.Check{
 		ID: "C17", Title: "Revocation checking is schedule-independent, race-free and leaves nothing behind", DesignRef: "DESIGN.md §4 C17",
 		Rule: "Engine E2 (seam scheduler): the real goroutines of ValidateContext / ocsp.CheckStatus are parked inside the harness RoundTripper, Fetcher and Cache; every interleaving of their seam operations is enumerated " +
-			"(up to 4 workers x 2 exchanges = 2 520 interleavings per pattern) for answer patterns over {OCSP Good, OCSP Revoked, OCSP error + CRL clean / lists / failing}, with a panic or a cancellation injected at every position " +
+			"(up to 4 workers x 2 exchanges = 2 520 interleavings per pattern) for answer patterns over {OCSP Good, OCSP Revoked, OCSP error + CRL clean / lists / failing}, with a panic, a cancellation instead of the answer, or a cancellation right after the answer injected at every position " +
 			"(<=1, thorough <=2 per execution), through the real HTTPFetcher with and without a shared cache and through a caller-supplied fetcher, and with two concurrent callers sharing validator, client, fetcher and cache. " +
 			"Oracle: results equal the sequential reference under every schedule; no deadlock state; no goroutine alive after return (goroutine dump by ancestry); an injected panic resurfaces on the caller with its value; cancellation fails closed. " +
 			"A separate free-running -race pass (1..32 concurrent callers) looks for data races below the scheduling granularity.",
